@@ -32,6 +32,7 @@ func (w *Worker) newPath(prefix []int64, harness string) *Path {
 		ts:      newTermStore(),
 		prefix:  prefix,
 		occ:     map[string]int{},
+		pools:   map[*value][]poolItem{},
 		sites:   map[string]int{},
 		notes:   map[string]string{},
 		regions: map[string]*Term{},
